@@ -294,9 +294,10 @@ where
     ) -> Result<(String, Vec<T>), PhylipParseError<T>> {
         let mut fields = row.split_whitespace();
         let name = fields.next().ok_or(PhylipParseError::EmptyRow(row_num))?;
+        // Only the triangular reader may ignore what follows the lower triangle
         let dists = fields
             .map(|d| d.parse().map_err(|_| PhylipParseError::DistParseError))
-            .take(if tril { row_num } else { size })
+            .take(if tril { row_num } else { usize::MAX })
             .collect::<Result<Vec<_>, _>>()?;
 
         Ok((name.to_string(), dists))
@@ -354,6 +355,9 @@ where
                 return Err(PhylipParseError::MissingDistance(i + 1));
             }
 
+            if square && i >= size {
+                return Err(PhylipParseError::SizeAndRowsMismatch(i + 1, size));
+            }
             if square && dists[i] != zero() {
                 return Err(PhylipParseError::NonZeroDiagonalValue(name.to_string()));
             }
